@@ -25,6 +25,46 @@ def is_self_string(e, v):
     return x
 
 
+def is_display_format_of_self(e, s, v):
+    """v is (a view of) format!("{}", self): fmt::format(Arguments::new(<template with one placeholder and no text>, [Argument::new_display(self)]))"""
+    from .. import emit
+    x = v
+    for _ in range(10):
+        if x[0] in ('ref', 'cref'):
+            try:
+                x = e.deref_value(s.state, x) if x[0] == 'ref' else x[1]
+            except Exception:
+                return False
+        elif x[0] == 'pure' and x[1].split('::')[-1] in ('deref', 'as_str', 'as_ref', 'borrow') and len(x[2]) == 1:
+            x = x[2][0]
+        else:
+            break
+    if not (x[0] == 'pure' and re.search(r'(^|::)fmt::format$', x[1]) and len(x[2]) == 1):
+        return False
+    a = x[2][0]
+    while a[0] == 'cref':
+        a = a[1]
+    if not (a[0] == 'pure' and a[1].endswith("Arguments::<'a>::new") and len(a[2]) == 2):
+        return False
+    tpl, arr = a[2]
+    tb = tpl[1][1] if tpl[0] == 'ref' and tpl[1][0] == 'MEM' else None
+    pieces = emit.template_pieces(tb) if tb is not None else None
+    while arr[0] in ('cref', 'ref') and isinstance(arr[1], tuple):
+        arr = arr[1]
+    if pieces != [('arg',)] or arr[0] != 'array' or len(arr[1]) != 1:
+        return False
+    fa = arr[1][0]
+    if not (fa[0] == 'pure' and fa[1].endswith('new_display') and len(fa[2]) == 1):
+        return False
+    who = fa[2][0]
+    for _ in range(4):
+        if who[0] in ('ref', 'cref') and isinstance(who[1], tuple):
+            who = e.deref_value(s.state, who) if who[0] == 'ref' and who[1][0] == 'L' else who[1]
+        else:
+            break
+    return who == ('param', 1) or terms.access_path(fa[2][0]) == (1, ())
+
+
 def entry_core(prog):
     from . import entry
     return entry.core_parser(prog)
@@ -57,9 +97,11 @@ def run(tier, replay=None):
                     continue
                 if r[2][0] != ('param', 2):
                     bad.append('serialize_str is not called on the given serializer')
-                # the string argument: to_string(self)
+                # the string argument: to_string(self), or the equivalent format!("{}", self)
                 ts_calls = [ev for ev in calls_of(s) if ev[1].endswith('as std::string::ToString>::to_string')]
-                if len(ts_calls) != 1 or ts_calls[0][2][0] != ('param', 1) or LI not in ts_calls[0][7]:
+                if not ts_calls and is_display_format_of_self(e, s, r[2][1]):
+                    pass
+                elif len(ts_calls) != 1 or ts_calls[0][2][0] != ('param', 1) or LI not in ts_calls[0][7]:
                     bad.append('the serialised text is not self.to_string()')
                 else:
                     # the argument handed over must be (a view of) that string and nothing else
@@ -67,7 +109,8 @@ def run(tier, replay=None):
                     inner = terms.find_terms(arg, lambda t: t[0] == 'pure' and t[1].split('::')[-1] in ('to_lowercase', 'to_uppercase', 'replace', 'trim', 'to_ascii_lowercase', 'to_ascii_uppercase'))
                     if inner:
                         bad.append('the string is transformed before serialisation: %s' % inner[0][1])
-                others = [ev[1] for ev in calls_of(s) if not re.search(r'(ToString>::to_string|Deref>::deref|Serializer::serialize_str|::as_str|AsRef.*::as_ref|Borrow.*::borrow)$', ev[1])]
+                others = [ev[1] for ev in calls_of(s) if not re.search(r'(ToString>::to_string|Deref>::deref|Serializer::serialize_str|::as_str|AsRef.*::as_ref|Borrow.*::borrow)$', ev[1])
+                          and not (is_display_format_of_self(e, s, r[2][1]) and re.search(r"(Argument::<'_>::new_display|Arguments::<'a>::new|fmt::format|hint::must_use)$", ev[1]))]
                 if others:
                     bad.append('unexpected calls %s' % others[:3])
             rep.ob('serde:serialize', 'SERDE-SER', fn, b['span'], 'Serialize writes exactly self.to_string() with serialize_str', not bad and segs, detail='\n'.join(sorted(set(bad))), how='%d path(s)' % len(segs))
